@@ -1,7 +1,6 @@
 """C17 — spike selection honours its constraints (DESIGN.md §5 C17)."""
 import itertools
 import numpy as np
-from . import common as C
 
 PID = 'C17'
 PARALLEL = False
@@ -12,30 +11,56 @@ RULE = ('spike vectors on a small time grid (int64/uint64/float64 times, spikes 
         'requested lists with unknown and repeated ids, subset on/off; exhaustive tiny grids first, '
         'then random. The output is random: the Lean executable decides the C17 predicate on the real '
         'output; where no sub-selection is needed the output is also compared with the model. '
+        'Also: times and bounds through a strictly increasing map (t - shift) * scale of the time axis (negative and fractional times and bounds, float64 / float32 / int32 / int16 times; the Int model sees the integers: selection_order_invariant), '
+        'the spike subset as list / tuple / int32 / uint64 / uint32 array and with ids beyond the last spike, the per-cluster arrays of the callable as int64 / int32 / uint32 / intp, the dtype of the result (an integer array). '
         'Also: grids given as arrays, grids of up to 300 bounds with up to 100 kept chunks given as narrow NumPy integers, spike times not in id order, earlier calls on the same selector whose results the caller modifies in place. '
         'non-trivial = some requested cluster has >= 1 eligible spike')
 ASSUMPTIONS = ['np.random.choice(ids, n, replace=False) returns n distinct elements of ids (its contract '
-               'is a hypothesis of the theorem); NumPy global RNG seeded per case for replay']
+               'is a hypothesis of the theorem); NumPy global RNG seeded per case for replay',
+               'get_spikes_per_cluster (a constructor argument of the selector) returns a one-dimensional NumPy integer array, '
+               'empty for an unknown cluster - what SpikeSelector.__call__ needs (spike_ids[mask]) and what both callers in the '
+               'repository pass (model.py:1422, test_array.py). A callable answering with a Python list (dict.get(c, [])) makes '
+               'subset_chunks=True raise TypeError: outside the property (it quantifies over spike-time / cluster vectors, not '
+               'over callables), not generated; NaN spike times (no order) likewise']
+
+
+def _tmap(case):
+    """strictly increasing map of the time axis applied to BOTH the spike times and the chunk bounds before they reach the
+    real selector: v -> (v - shift) * scale (scale > 0; the model keeps the integers v - see selection_order_invariant).
+    scale 1: integers (negative when shift > v); otherwise floats - distinct integers stay distinct and ordered, equal ones
+    stay equal (the same expression on both sides), so "spike exactly on a bound" is preserved"""
+    shift, scale = case['tmap']
+    if scale == 1:
+        return lambda v: int(v) - shift
+    return lambda v: (int(v) - shift) * float(scale)
 
 
 def impl(case):
     from phylib.io.array import SpikeSelector, _spikes_per_cluster
     sc = np.array(case['clusters'], dtype=case.get('scdtype', 'int64'))     # narrow dtypes: spike ids must not inherit them
-    st = np.array(case['times'], dtype=case.get('tdtype', 'int64'))
+    f = _tmap(case) if case.get('tmap') else None
+    st = np.array([f(t) for t in case['times']] if f else case['times'], dtype=case.get('tdtype', 'int64'))
     spc = _spikes_per_cluster(sc) if len(sc) else {}
+    if case.get('spckind', 'int64') != 'int64':
+        # the arrays the callable hands out, in another integer dtype (its contract: an integer array, see ASSUMPTIONS)
+        spc = {k: v.astype(case['spckind']) for k, v in spc.items()}
+    empty = np.array([], dtype=case.get('spckind', 'int64'))
     np.random.seed(case.get('rs', 0))
     g = case.get('gscale', 1)
     # gscale g > 1: the chunk grid is fractional (bounds/g, floats) while spike times stay whole
     # numbers; the model sees everything in units of 1/g
     grid = case['bounds'] if g == 1 else [b / float(g) for b in case['bounds']]
+    if f:
+        grid = [f(b) for b in case['bounds']]
+    back = {float(v): b for v, b in zip(grid, case['bounds'])} if f else None
     if case.get('boundskind') == 'array':
         grid = np.array(grid)               # the reader's chunk_bounds attribute is an array, not a list
     nk = case['n_kept']
     if case.get('nkeptkind', 'py') != 'py':
         nk = getattr(np, case['nkeptkind'])(nk)          # the number of chunks to keep as a (narrow) NumPy integer
-    sel = SpikeSelector(get_spikes_per_cluster=lambda c: spc.get(c, np.array([], dtype=np.int64)),
+    sel = SpikeSelector(get_spikes_per_cluster=lambda c: spc.get(c, empty),
                         spike_times=st, chunk_bounds=grid, n_chunks_kept=nk)
-    subset = None if case.get('subset') is None else np.array(case['subset'], dtype=np.int64)
+    subset = _subset(case.get('subset'), case.get('subsetkind', 'int64'))
     count, req = case['count'], case['req']
     if count is not None and case.get('countkind', 'py') != 'py':
         count = getattr(np, case['countkind'])(count)        # the count as a NumPy integer scalar
@@ -44,7 +69,7 @@ def impl(case):
         # earlier calls on the SAME selector (other subsets / counts / chunk restriction): a selection must not
         # depend on what the selector was asked before
         o = sel(pc['count'], list(pc['req']), subset_chunks=pc['subset_chunks'],
-                subset_spikes=None if pc.get('subset') is None else np.array(pc['subset'], dtype=np.int64))
+                subset_spikes=_subset(pc.get('subset'), case.get('subsetkind', 'int64')))
         try:
             # what the caller does with a returned selection is the caller's business (e.g. making it relative)
             if isinstance(o, np.ndarray) and o.size and o.flags.writeable:
@@ -52,15 +77,35 @@ def impl(case):
         except Exception:  # noqa
             pass
     out = sel(count, req, subset_chunks=case['subset_chunks'], subset_spikes=subset)
-    return dict(out=[int(x) for x in out], kept=[int(round(float(x) * g)) for x in sel.chunks_kept],
-                dtype=str(np.asarray(out).dtype))
+    if f:
+        # kept bounds back on the model's axis: each must BE one of the bounds handed in (None otherwise)
+        kept = [back.get(float(x)) for x in sel.chunks_kept]
+    else:
+        kept = [int(round(float(x) * g)) for x in sel.chunks_kept]
+    o = np.asarray(out)
+    return dict(out=[int(x) for x in o.ravel()], kept=kept, dtype=str(o.dtype), ndim=int(o.ndim),
+                integral=bool(all(float(x) == int(x) for x in o.ravel())))
+
+
+def _subset(sub, kind):
+    if sub is None:
+        return None
+    if kind == 'list':
+        return list(sub)
+    if kind == 'tuple':
+        return tuple(sub)
+    return np.array(sub, dtype=kind)
 
 
 def model_query(case, impl_res):
-    q = {k: v for k, v in case.items() if k not in ('tdtype', 'rs', 'gscale', 'countkind', 'reqkind', 'scdtype', 'pre', 'boundskind', 'nkeptkind')}
+    q = {k: v for k, v in case.items() if k not in ('tdtype', 'rs', 'gscale', 'countkind', 'reqkind', 'scdtype', 'pre', 'boundskind', 'nkeptkind',
+                                                      'tmap', 'subsetkind', 'spckind')}
     q['times'] = [t * case.get('gscale', 1) for t in case['times']]
     q['op'] = 'select'
-    if 'ok' in impl_res and all(x >= 0 for x in impl_res['ok']['out']):
+    if case.get('tmap'):
+        # self-check of the order invariance the run relies on: the model through an integer strictly increasing map
+        q['tmap'] = [1 + case['tmap'][0] % 3, -case['tmap'][0]]
+    if 'ok' in impl_res and all(x >= 0 for x in impl_res['ok']['out']) and None not in impl_res['ok']['kept']:
         q['impl'] = impl_res['ok']['out']
         q['impl_kept'] = impl_res['ok']['kept']
     return q
@@ -76,6 +121,13 @@ def judge(case, impl_res, ans):
         return 'SPEC: real code raised %s (%s) at %s on an in-domain input' % (
             impl_res['raised'], impl_res['msg'], impl_res['where'])
     ok = impl_res['ok']
+    if case.get('tmap') and m.get('map_invariant') is not True:
+        return 'MACHINERY: the model is not invariant under a strictly increasing map of the time axis (contradicts selection_order_invariant)'
+    if ok['ndim'] != 1 or not ok['integral'] or np.dtype(ok['dtype']).kind not in 'iu':
+        return ('SPEC: the selection is not a one-dimensional INTEGER array of spike ids (dtype %s, ndim %d): it cannot index '
+                'the spikes' % (ok['dtype'], ok['ndim']))
+    if None in ok['kept']:
+        return 'SPEC: chunks_kept holds a value that is not a bound of the supplied grid'
     if any(x < 0 or x >= len(case['times']) for x in ok['out']):
         return 'SPEC: the selection contains spike ids outside 0..n_spikes-1: %s' % [x for x in ok['out'] if x < 0 or x >= len(case['times'])][:5]
     if m['impl_kept_ok'] is not True:
@@ -83,8 +135,11 @@ def judge(case, impl_res, ans):
     if m['impl_spec'] is not True:
         return 'SPEC: selection violates the cluster/chunk/subset/count constraints'
     if ok['kept'] != m['kept']:
-        # another regular stride than the model's: admissible by the letter of the statement, not what the code did
-        return 'CORR: chunks_kept differs from the model (another admissible regular stride)'
+        # another regular stride than the model's: admissible by the letter of the statement ("never more than the requested
+        # number", not "as many as it allows"), not what the code does (stride_minimal)
+        return ('CORR: chunks_kept is another admissible regular stride than the model\'s (the smallest that keeps at most the '
+                'requested number) - satisfies every clause of the statement; differs from the model of the code: correspondence '
+                'broken (the property is no longer SHOWN to hold by the tie to the model)')
     if not m['random'] and ok['out'] != m['model']:
         return 'MACHINERY: deterministic case accepted by the spec but different from the model'
     return None
@@ -108,6 +163,18 @@ def tally(rep, case, impl_res, ans):
     if 'ok' in ans:
         rep.count('random_choice_needed:%s' % ans['ok']['random'])
     rep.count('grid_given_as:%s' % case.get('boundskind', 'list'))
+    if case.get('tmap'):
+        sh, sc_ = case['tmap']
+        neg = any(t < sh for t in case['times']) or any(b < sh for b in case['bounds'])
+        rep.count('time axis through (t - shift) * scale: %s%s' % (
+            'integers' if sc_ == 1 else 'fractional (dyadic scale)' if sc_ in (0.25, 0.5) else 'fractional (scale %s)' % sc_,
+            ', some negative' if neg else ''))
+    if case.get('subset') is not None:
+        rep.count('subset_given_as:%s%s' % (case.get('subsetkind', 'int64'),
+                                           ', with ids beyond the spikes' if any(x >= len(case['times']) for x in case['subset']) else ''))
+    rep.count('callable_returns:%s arrays' % case.get('spckind', 'int64'))
+    if 'ok' in impl_res:
+        rep.count('result_dtype:%s' % impl_res['ok']['dtype'])
     rep.count('n_kept_type:%s%s' % (case.get('nkeptkind', 'py'), ' (100+ chunks)' if len(case['bounds']) > 100 else ''))
     rep.count('n_kept:%s, bounds:%s' % ('<=6' if case['n_kept'] <= 6 else '7+', '<=8' if len(case['bounds']) <= 8 else '9+'))
     rep.count('earlier_calls_on_same_selector:%d' % len(case.get('pre', [])))
@@ -220,6 +287,19 @@ def gen(tier, rng):
             # quantifies over all spike-time vectors and the chunk test is per spike
             k = rng.randrange(1, ns)
             c['times'] = c['times'][k:] + c['times'][:k] if rng.random() < .5 else rng.sample(c['times'], ns)
+        if c.get('subset') is not None:
+            # the subset as the caller may hold it: list / tuple (test_array.py passes a list), other integer dtypes; with
+            # ids beyond the last spike (a subset computed for a longer recording)
+            c['subsetkind'] = rng.pick(['int64', 'int64', 'list', 'tuple', 'int32', 'uint64', 'uint32'])
+            if rng.random() < .25:
+                c['subset'] = c['subset'] + [ns + rng.randrange(0, 6) for _ in range(rng.randrange(1, 3))]
+        c['spckind'] = rng.pick(['int64', 'int64', 'int64', 'int32', 'uint32', 'intp'])
+        if rng.random() < .35 and 'gscale' not in c:
+            # negative / fractional times and bounds: the time axis through a strictly increasing map
+            scale = rng.pick([1, 1, 0.25, 0.5, 1.1, 1e-3, 30000.0, 1 / 3.])
+            c['tmap'] = [rng.pick([0, 7, 40, 500, -3]), scale]
+            c['tdtype'] = (rng.pick(['int64', 'int32', 'int16', 'float64']) if scale == 1 else
+                           rng.pick(['float64', 'float64', 'float32']) if scale in (0.25, 0.5) else 'float64')
         if rng.random() < .3 and ns:
             c['pre'] = []
             for _ in range(rng.randrange(1, 3)):
